@@ -12,7 +12,7 @@ import numpy as np
 from .base_classes import Shape2D
 from .convex_polygon import ConvexPolygon, _is_convex
 from .polygon import _align_points_by_normal
-from .utils import _hoomd_dict_mapping, _map_dict_keys
+from .utils import _hoomd_dict_mapping, _map_dict_keys, _validate_scale
 
 
 class ConvexSpheropolygon(Shape2D):
@@ -105,6 +105,7 @@ class ConvexSpheropolygon(Shape2D):
             scale (float):
                 Scale factor.
         """
+        _validate_scale(scale)
         self.polygon._vertices *= scale
         self.radius *= scale
 
